@@ -97,7 +97,8 @@ func (r *Reliable) initiate(req bool) {
 		for {
 			r.l.Lock()
 			switch r.tubeState {
-			case initiated:
+			case initiated, closeWait:
+				// closeWait: the peer's FIN overtook this goroutine, see below
 				r.l.Unlock()
 				break initLoop
 			case created:
@@ -125,7 +126,11 @@ func (r *Reliable) initiate(req bool) {
 	}
 
 	r.l.Lock()
-	if r.tubeState != initiated {
+	// The peer's FIN can be processed before this goroutine gets here, which
+	// moves an initiated tube on to closeWait. That tube still needs its
+	// sender: without it neither the acknowledgement of the FIN nor our own
+	// FIN is ever sent and the peer's close can never complete.
+	if r.tubeState != initiated && r.tubeState != closeWait {
 		r.l.Unlock()
 		return
 	}
